@@ -153,6 +153,14 @@ impl RemovalBuffer {
         }
     }
 
+    /// Forgets removals for a despawned entity.
+    pub(super) fn remove_entity(&mut self, entity: Entity) {
+        if let Some(mut components) = self.removals.remove(&entity) {
+            components.clear();
+            self.ids_buffer.push(components);
+        }
+    }
+
     /// Clears all removals.
     ///
     /// Keeps the allocated memory for reuse.
